@@ -37,6 +37,18 @@ Streams
              enclosing group with its coordinate variable in that group, nearer to the data
              variable (proximal) or in another branch below it (lateral) -> cfdm.read -> which
              netCDF variable each construct came from    (oracle only)
+  C11.multi  2-4 small fields in equal / nested / unrelated groups (and the root) x properties x
+             nc_group_attributes() records, written by ONE cfdm.write call: the groups of the dataset,
+             the attributes of every group, the global attributes and the attributes of every data
+             variable as netCDF4 sees them (Lean model writeFieldsN = the walk from the root for every
+             group path + the selection and omit rules); every field read back = original = read(flat),
+             recorded groups and group attributes, re-write reproduces    (Lean model + oracle)
+  C11.self   "self-contained groups": hand-made files in which the data variables of several groups
+             use the SAME bare name / relative path (coordinates, bounds, ancillary_variables,
+             cell_measures, grid_mapping, cell_methods scalar coordinate) and every group, an ancestor
+             or a sub-group has its own variable of that name; the harness resolves every reference by
+             its own CF search and writes the equivalent FLAT file with netCDF4 only;
+             cfdm.read(grouped) = cfdm.read(flat), construct by construct         (oracle only)
 """
 import ast
 import atexit
@@ -74,6 +86,14 @@ REQUIRED = [
     "C11_old_coordinate_variable_counterexample",
     "C11_old_group_attribute_counterexample",
     "C11_rules_table",
+    "C11_group_attributes_placement",
+    "C11_walk_must_restart_at_root_counterexample",
+    "C11_group_attributes_of_fields",
+    "C11_group_attributes_several_fields",
+    "C11_old_several_fields_counterexample",
+    "C11_reader_group_attribute_precedence",
+    "C11_reader_base_name",
+    "C11_old_reader_base_name_counterexample",
 ]
 BUDGET = {"quick": 1500, "thorough": 40000}
 RULE = (
@@ -83,15 +103,24 @@ RULE = (
     "apex), strict and non-strict; name: trees whose names contain '__', leading/trailing '_' or 100-250 characters; "
     "place: random fields (0-4 axes, bounds, auxiliary/scalar coordinates, cell measures, ancillaries, grid mapping, "
     "formula terms, cell methods) and example fields x group paths of depth 0-3 for every variable and dimension, "
-    "~25% perturbed to invisible dimensions, x group attributes x group in {True, False}. non-trivial = the tree / "
-    "layout has at least one non-root group and (res) the token is not a bare name found in the referrer's own group"
+    "~25% perturbed to invisible dimensions, x group attributes x group in {True, False}; for the geometry example field "
+    "and example fields 3/4 compressed as contiguous / indexed / indexed contiguous ragged arrays also the geometry "
+    "container, interior ring, count and index variables; multi: 1-4 fields, group paths from a spine + siblings + the "
+    "root, 72% 'agreeing' property sets; self: 2-4 data variables 'tas' in different groups with same-named lat / height "
+    "/ flag / area / crs (+ lat_bnds) in the group, an ancestor or a 'grid' sub-group, bare / relative / absolute; cv: "
+    "13% with a regular-expression metacharacter or 140 characters in a group name. non-trivial = the tree / "
+    "layout has at least one non-root group and (res) the token is not a bare name found in the referrer's own group; "
+    "(multi) some field records a group attribute; (self) one string designates different targets from different groups"
 )
 ASSUMPTIONS = [
     "netCDF names contain no '/' (netCDF forbids it); the theorems carry this hypothesis explicitly",
     "sha1 is an uninterpreted function in the model; the driver is handed the digests the case can need",
     "variables and dimensions of a written field have distinct base names unless the case is tagged samebase "
     "(same base name in an enclosing group = the two shadowing findings)",
-    "one field per file (interference between fields is C09)",
+    "one field per file in the place / gattr streams; several fields per file only in C11.multi (group attributes) and "
+    "C11.self (references); other interference between fields is C09",
+    "a file whose coordinates attribute names one scalar string variable twice is not read back (netCDF-C/HDF5 fails on "
+    "re-opening the dataset for the same vlen string - reproduced with netCDF4 alone; grouped and flat alike)",
 ]
 TIME_LIMIT = {"quick": 170, "thorough": 1400}
 QUICK_JOBS = 8
@@ -912,6 +941,9 @@ def build_field(p):
     rng = fw.rng_for(p["fseed"], "C11.field")
     if p["source"].startswith("ex"):
         f = C.example_field(int(p["source"][2:]))
+    elif p["source"].startswith("cx"):
+        # compressed by convention: example field 3 as a contiguous / indexed ragged array, 4 as indexed contiguous
+        f = C.example_field(int(p["source"][2])).compress({"c": "contiguous", "i": "indexed", "x": "indexed_contiguous"}[p["source"][3]])
     else:
         f = F.random_field(rng, max_axes=3, allow=("dim", "aux", "aux2d", "scalar", "msr", "fan", "cm", "gm", "ft",
                                                     "bounds", "names", "mask", "string", "dan"))
@@ -944,6 +976,12 @@ def build_field(p):
             names[k + ":b"] = n + "_b"
             nv = c.bounds.data.shape[-1]
             c.bounds.nc_set_dimension(f"bd{nv}")
+    for n, objs in extra_objects(f).items():
+        for o in objs:
+            if o is f:
+                f.nc_set_geometry_variable(n)
+            else:
+                o.nc_set_variable(n)
     dnames = {}
     for i, a in enumerate(axes):
         da = f.domain_axes(todict=True)[a]
@@ -956,11 +994,68 @@ def build_field(p):
     return f, names, dnames
 
 
+class _Part:
+    """A node count / part node count / interior ring variable of one geometry coordinate: the getters return
+    copies, so a change is made on the copy and the copy is put back."""
+
+    def __init__(self, coord, what):
+        self.coord, self.what = coord, what
+
+    def _apply(self, method, *args):
+        o = getattr(self.coord, "get_" + self.what)()
+        getattr(o, method)(*args)
+        getattr(self.coord, "set_" + self.what)(o)
+
+    def nc_set_variable(self, n):
+        self._apply("nc_set_variable", n)
+
+    def nc_set_variable_groups(self, g):
+        self._apply("nc_set_variable_groups", g)
+
+
+def extra_objects(f):
+    """The netCDF variables of a field that belong to no construct of their own: the geometry container, node
+    count, part node count and interior ring variables, and the count / index variables of a ragged array.
+    -> {base name: [objects to name and to put into groups]} (the field itself stands for its geometry container)."""
+    out = collections.OrderedDict()
+    geo = [c for _, c in sorted(f.auxiliary_coordinates(todict=True).items()) if c.get_geometry(None) is not None]
+    if geo:
+        out["gcon"] = [f]
+        for nm, what in (("ncnt", "node_count"), ("pncnt", "part_node_count"), ("iring", "interior_ring")):
+            objs = [_Part(c, what) for c in geo if getattr(c, "has_" + what)()]
+            if objs:
+                out[nm] = objs
+    d = f.data if f.has_data() else None
+    if d is not None and d.get_compression_type():
+        for nm, get in (("cnt", "get_count"), ("idx", "get_index")):
+            o = getattr(d, get)(None)
+            if o is not None:
+                out[nm] = [o]
+    return out
+
+
+def extra_needs(f, dnames):
+    """The dimensions (by name, as far as the assignment moves them) that each extra variable spans."""
+    needs = {}
+    geo = [k for k, c in sorted(f.auxiliary_coordinates(todict=True).items()) if c.get_geometry(None) is not None]
+    if geo:
+        needs["ncnt"] = [dnames[a] for a in f.get_data_axes(geo[0])[:1]]
+    if f.has_data() and f.data.get_compression_type():
+        # the count variable (and, for an indexed contiguous array, the index variable) spans the instance dimension
+        inst = [dnames[a] for a in f.get_data_axes()[:1]]
+        needs["cnt"] = inst if f.data.get_compression_type() == "ragged contiguous" else []
+    return needs
+
+
 def gen_place(rng, tier):
     r = rng.random()
-    source = "rnd" if r < 0.8 else rng.choice(["ex0", "ex1", "ex1", "ex2", "ex3", "ex4", "ex5", "ex6", "ex7"])
+    source = "rnd" if r < 0.74 else rng.choice(["ex0", "ex1", "ex1", "ex2", "ex3", "ex4", "ex5", "ex6", "ex6", "ex7", "ex11",
+                                                 "cx3c", "cx3i", "cx4x"])
     p = dict(source=source, fseed=rng.randrange(10 ** 9), aseed=rng.randrange(10 ** 9),
              perturb=rng.random() < 0.25, samebase=rng.random() < 0.06, gattrs=rng.random() < 0.5)
+    if source in ("ex6", "cx3c", "cx3i", "cx4x"):
+        # the geometry container / node count / part node count / interior ring / count / index variables get groups too
+        p["extras"] = rng.random() < 0.8
     return p
 
 
@@ -1018,6 +1113,13 @@ def assignment(p, f, names, dnames):
             else:
                 req = g if len(g) >= len(bd) else bd
                 vgroup[bn] = below(req) if rng.random() < 0.5 else list(req)
+    if p.get("extras"):
+        needs = extra_needs(f, dnames)
+        for n in extra_objects(f):
+            need = [dgroup[d] for d in needs.get(n, []) if d in dgroup]
+            req = max(need, key=len) if need else []
+            # (the geometry container mostly stays in the root group: elsewhere the flat file is not flat - open finding)
+            vgroup[n] = below(req) if rng.random() < (0.3 if n == "gcon" else 0.8) else list(req)
     grouped_dims = sorted(n for n, g in dgroup.items() if g)
     if p["perturb"] and grouped_dims and rng.random() < 0.35:
         # a *sibling* group whose name extends the dimension's group name ('/forecast' -> '/forecast2'):
@@ -1093,6 +1195,13 @@ def apply_assignment(f, names, dnames, asg):
             c.bounds.nc_set_dimension("/" + "/".join(dg[base] + [base]) if dg[base] else base)
     for a, n in dnames.items():
         f.domain_axes(todict=True)[a].nc_set_dimension_groups(dg[n])
+    for n, objs in extra_objects(f).items():
+        if n in vg:
+            for o in objs:
+                if o is f:
+                    f.nc_set_geometry_variable_groups(vg[n])
+                else:
+                    o.nc_set_variable_groups(vg[n])
     for a, mode in asg["gattrs"].items():
         val = dict(GATTR_POOL)[a]
         if mode == "none":
@@ -1191,7 +1300,7 @@ def mk_place(p):
     p = dict(p)
     key = json.dumps(p, sort_keys=True)
     tags = [f"place:src={p['source'][:3]}", f"place:perturb={int(p['perturb'])}", f"place:gattrs={int(p['gattrs'])}",
-            f"place:samebase={int(p['samebase'])}"]
+            f"place:samebase={int(p['samebase'])}"] + (["place:extras=1"] if p.get("extras") else [])
     # the protocol line needs the flat file cfdm writes for this field: impl_place fills it in
     return Case("C11.place", p, None, key=key, nontrivial=True, tags=tags)
 
@@ -1300,6 +1409,9 @@ def impl_place(c):
             ex["skip"] = "flat write failed: " + repr(e)[:200]
             return "skip"
         fv, fd, fg = nc_layout(flat)
+        if set(fg) != {"/"}:
+            ex["flat_groups"] = sorted(set(fg) - {"/"})
+            return "flat-file-has-groups"
         dims, vars_ = layout_input(fv, fd, asg)
         ex["dims"], ex["vars"] = dims, vars_
         ex["flat_attrs"] = [(a, val) for _, (_, attrs) in fv.items() for a, val in attrs.items()]
@@ -1348,6 +1460,15 @@ def impl_place(c):
             parts.append(f"{v_back[cands[0]]}({','.join(d_back.get(d, '?') for d in fdims)})[{','.join(rr)}]")
         out = "ok " + ";".join(parts)
         # reads, for the oracle
+        dup = [val for _, (_, attrs) in fv.items() for a, val in attrs.items()
+               if a == "coordinates" and len(set(val.split())) != len(val.split())]
+        if dup:
+            # The writer names one scalar string-valued coordinate variable twice (two identical size-1 auxiliary
+            # coordinates).  Reading such a file - grouped OR flat - re-opens the dataset for the same vlen-string
+            # scalar while the reader's own handle is open, which netCDF-C/HDF5 answers with "HDF error" or a
+            # segmentation fault (reproduced with netCDF4 alone).  Not a matter of groups (C01): no reads.
+            ex["flat_read_error"] = "coordinates attribute names a variable twice: " + dup[0]
+            return out
         try:
             r_flat = C.read(flat)
         except Exception as e:
@@ -1418,6 +1539,8 @@ def oracle_place(c):
     out = str(c.impl_out)
     if out == "skip":
         return None
+    if out == "flat-file-has-groups":
+        return f"the file written with group=False has groups {ex['flat_groups']}"
     asg = ex["asg"]
     dims, vars_ = ex["dims"], ex["vars"]
     # --- the tree relation decides which layouts are acceptable
@@ -1527,6 +1650,13 @@ def classify_place(c):
     p, ex = c.payload, c.extra or {}
     msg = str(c.oracle_fail or "")
     asg = ex.get("asg") or {}
+    if str(c.impl_out) == "flat-file-has-groups" and asg.get("vgroup", {}).get("gcon") and \
+            ex.get("flat_groups") == [enc_path(asg["vgroup"]["gcon"][:k]) for k in range(1, len(asg["vgroup"]["gcon"]) + 1)]:
+        return "write-flat-geometry-container-keeps-groups"
+    gc = asg.get("vgroup", {}).get("gcon")
+    if gc and msg.startswith("re-writing the grouped read gives another layout") and \
+            msg.endswith(repr(sorted([enc_path(gc + ["gcon"]), "/" + "__".join(gc + ["gcon"])]))):
+        return "read-geometry-container-groups-not-recorded"
     if "dims" in ex:
         vs, ds = shadow_facts(ex)
         if ds:
@@ -1545,6 +1675,15 @@ def classify_place(c):
     if any(m == "other" for m in asg.get("gattrs", {}).values()) and ("equal" in msg or "fingerprints" in msg):
         return "write-group-attribute-value-replaces-property"
     return "unclassified-place"
+
+
+def _read(path, payload):
+    """cfdm.read with the backend the case asks for (h5netcdf: the flattener then works on h5netcdf objects -
+    its own dimension look-up, parent, name and attribute accessors)."""
+    C = cfdm()
+    if payload.get("h5"):
+        return C.read(path, netcdf_backend="h5netcdf")
+    return C.read(path)
 
 
 # ------------------------------------------------------------------ C11.read (oracle only)
@@ -1587,7 +1726,7 @@ def gen_read(rng):
         else:
             cv = list(xg)
         zdim = dict(xg=xg, cv=cv)
-    return dict(paths=paths, at=at, roles=roles, zdim=zdim)
+    return dict(paths=paths, at=at, roles=roles, zdim=zdim, h5=rng.random() < 0.25)
 
 
 def read_groups(p):
@@ -1642,7 +1781,8 @@ def mk_read(p):
     z = p.get("zdim")
     zt = "none" if not z else ("same" if z["cv"] == z["xg"] else ("proximal" if z["cv"] == p["at"][:len(z["cv"])] else "lateral"))
     return Case("C11.read", p, None, key=key, nontrivial=(bool(toks) or bool(z)) and len(p["paths"]) > 1,
-                tags=["read:styles=" + "+".join(styles), f"read:depth={max(len(q) for q in p['paths'])}", "read:coordvar=" + zt])
+                tags=["read:styles=" + "+".join(styles), f"read:depth={max(len(q) for q in p['paths'])}", "read:coordvar=" + zt,
+                      f"read:h5netcdf={int(bool(p.get('h5')))}"])
 
 
 def impl_read(c):
@@ -1700,7 +1840,7 @@ def impl_read(c):
                 t = toks[role][0]
                 d.setncattr(attr, f"area: {t}" if role == "msr" else t)
         nc.close()
-        fs = C.read(path)
+        fs = _read(path, p)
         fs = [f for f in fs if f.get_property("standard_name", None) == "air_temperature"]
         if len(fs) != 1:
             return f"fields={len(fs)}"
@@ -1773,7 +1913,32 @@ def gen_cv(rng):
         if q not in cands and q != dg and rng.random() < 0.25:
             # (a variable of another name spanning the dimension needs the dimension in scope)
             decoys.append([q, rng.choice(["othername", "otherdim"]) if q[:len(dg)] == dg else "otherdim"])
-    return dict(paths=paths, fg=fg, dg=dg, cands=cands, decoys=decoys)
+    p = dict(paths=paths, fg=fg, dg=dg, cands=cands, decoys=decoys, h5=rng.random() < 0.25)
+    r = rng.random()
+    if r < 0.13:
+        # a group name with a character that is special in regular expressions (legal in netCDF), or - rarely - so
+        # long that the flattened names of the variables below it exceed 255 characters and are hashed
+        used = sorted({x for q in paths for x in q})
+        if used:
+            old = rng.choice(used)
+            new = rng.choice(CV_ODD) if r < 0.1 else "L" * 140 + old
+            ren = lambda q: [new if x == old else x for x in q]
+            p = dict(paths=[ren(q) for q in paths], fg=ren(fg), dg=ren(dg), cands=[ren(q) for q in cands],
+                     decoys=[[ren(q), k] for q, k in decoys], h5=p["h5"])
+    return p
+
+
+CV_ODD = ["a+b", "c(d", "m*", "x.y", "g[1]", "k-2"]
+CV_SPECIAL = set("+*?()[]{}|^$\\")
+
+
+def cv_name_kind(p):
+    names = {x for q in p["paths"] for x in q}
+    if any(len(x) > 100 for x in names):
+        return "long"
+    if any(CV_SPECIAL & set(x) for x in names):
+        return "regex"
+    return "odd" if any(x in CV_ODD for x in names) else "plain"
 
 
 def mk_cv(p):
@@ -1783,8 +1948,8 @@ def mk_cv(p):
     fg, dg = p["fg"], p["dg"]
     above = sum(1 for q in p["cands"] if fg[:len(q)] == q)
     tags = [f"cv:proximal-candidates={min(above, 3)}", f"cv:lateral-candidates={min(len(p['cands']) - above, 3)}",
-            f"cv:apexvar={int(dg in p['cands'])}", f"cv:dimdepth={len(dg)}"]
-    return Case("C11.cv", p, line, key=line + json.dumps(p["decoys"]), nontrivial=len(p["cands"]) >= 1 and len(fg) >= 1, tags=tags)
+            f"cv:apexvar={int(dg in p['cands'])}", f"cv:dimdepth={len(dg)}", "cv:names=" + cv_name_kind(p), f"cv:h5netcdf={int(bool(p.get('h5')))}"]
+    return Case("C11.cv", p, line, key=line + json.dumps(p["decoys"]) + str(bool(p.get("h5"))), nontrivial=len(p["cands"]) >= 1 and len(fg) >= 1, tags=tags)
 
 
 def impl_cv(c):
@@ -1825,7 +1990,11 @@ def impl_cv(c):
         d.standard_name = "air_temperature"
         d.units = "K"
         nc.close()
-        fs = [f for f in C.read(path) if f.get_property("standard_name", None) == "air_temperature"]
+        try:
+            fs = [f for f in _read(path, p) if f.get_property("standard_name", None) == "air_temperature"]
+        except Exception as e:
+            c.extra = dict(error=repr(e)[:300])
+            return "raised:" + (fw.exc_enum(e) if not type(e).__name__ == "error" else "re.error")
         if len(fs) != 1:
             return f"fields={len(fs)}"
         f = fs[0]
@@ -1868,6 +2037,11 @@ def oracle_cv(c):
 def classify_cv(c):
     p = c.payload
     fg, dg, cands = p["fg"], p["dg"], p["cands"]
+    kind = cv_name_kind(p)
+    if kind == "long" and str(c.impl_out).startswith("raised:IndexError"):
+        return "read-hashed-flattened-name-hdf5-chunks-indexerror"
+    if kind in ("long", "regex"):
+        return "read-basename-from-flattened-name-regex"
     if dg in cands and any(fg[:len(q)] == q and len(q) > len(dg) for q in cands) and str(c.impl_out) == "some:" + enc_path(dg):
         return "read-coordinate-variable-same-group-shortcut-overrides-nearer"
     return "unclassified-cv"
@@ -1893,18 +2067,29 @@ def gen_gattr(rng):
             ga[a] = v
         elif mode in ("other", "absent"):
             ga[a] = v + "_group"
-    return dict(grp=grp, props=props, ga=ga)
+    # a file format without groups (netCDF3, netCDF4 classic model): the field is written as with group=False
+    fmt = rng.choice(CLASSIC_FMTS) if rng.random() < 0.12 else "NETCDF4"
+    return dict(grp=grp, props=props, ga=ga, fmt=fmt)
+
+
+CLASSIC_FMTS = ["NETCDF3_CLASSIC", "NETCDF3_64BIT_OFFSET", "NETCDF4_CLASSIC"]
+
+
+def gattr_grp(p):
+    """The group the data variable ends up in."""
+    return p["grp"] if p.get("fmt", "NETCDF4") == "NETCDF4" else []
 
 
 def mk_gattr(p):
     p = dict(p)
     props = ",".join(f"{a}>{v}" for a, v in p["props"].items()) or "-"
     ga = ",".join(f"{a}>{'-' if v is None else v}" for a, v in p["ga"].items()) or "-"
-    line = f"C11.gattr grp={enc_path(p['grp'])} glob={','.join(DESC_ATTRS)} props={props} ga={ga}"
+    line = f"C11.gattr grp={enc_path(gattr_grp(p))} glob={','.join(DESC_ATTRS)} props={props} ga={ga}"
     modes = sorted({("none" if v is None else ("absent" if a not in p["props"] else ("same" if p["props"][a] == v else "other")))
                     for a, v in p["ga"].items()})
-    return Case("C11.gattr", p, line, key=line, nontrivial=bool(p["ga"]),
-                tags=[f"gattr:depth={len(p['grp'])}", "gattr:modes=" + "+".join(modes or ["-"])])
+    return Case("C11.gattr", p, line, key=line + p.get("fmt", ""), nontrivial=bool(p["ga"]),
+                tags=[f"gattr:depth={len(p['grp'])}", "gattr:modes=" + "+".join(modes or ["-"]),
+                      "gattr:fmt=" + ("NETCDF4" if p.get("fmt", "NETCDF4") == "NETCDF4" else "classic")])
 
 
 def _small_field():
@@ -1931,21 +2116,28 @@ def impl_gattr(c):
     path, path2 = tmpfile("ga"), tmpfile("ga2")
     names = [a for a, _ in GA_POOL]
 
+    egrp = gattr_grp(p)
+    fmt = p.get("fmt", "NETCDF4")
+
     def look(fn):
         nc = netCDF4.Dataset(fn, "r")
         try:
             g = nc
-            for x in p["grp"]:
+            for x in egrp:
                 g = g.groups[x]
             v = g.variables["q"]
             return ({a: str(nc.getncattr(a)) for a in nc.ncattrs() if a in names},
-                    {a: str(g.getncattr(a)) for a in g.ncattrs() if a in names} if p["grp"] else {},
+                    {a: str(g.getncattr(a)) for a in g.ncattrs() if a in names} if egrp else {},
                     {a: str(v.getncattr(a)) for a in v.ncattrs() if a in names})
         finally:
             nc.close()
 
     try:
-        C.write(f, path)
+        try:
+            C.write(f, path, fmt=fmt)
+        except RuntimeError as e:
+            c.extra = dict(error=str(e)[:200])
+            return "raised:RuntimeError"
         glob, grp, var = look(path)
         out = f"glob={_fmt_pairs(glob)} grp={_fmt_pairs(grp)} var={_fmt_pairs(var)}"
         ex = dict()
@@ -1959,7 +2151,7 @@ def impl_gattr(c):
             ex["rec_groups"] = list(h.nc_variable_groups())
             ex["rec_ga"] = sorted(h.nc_group_attributes())
             try:
-                C.write(h, path2)
+                C.write(h, path2, fmt=fmt)
                 ex["again"] = [_fmt_pairs(x) for x in look(path2)]
                 ex["first"] = [_fmt_pairs(x) for x in (glob, grp, var)]
             except Exception as e:
@@ -1971,8 +2163,8 @@ def impl_gattr(c):
 
 def oracle_gattr(c):
     p, ex = c.payload, c.extra
-    if str(c.impl_out).startswith("raised") or not isinstance(ex, dict):
-        return "cfdm.write / cfdm.read failed: " + str(c.impl_out)
+    if str(c.impl_out).startswith("raised") or not isinstance(ex, dict) or "n" not in ex:
+        return f"cfdm.write(fmt={p.get('fmt', 'NETCDF4')!r}) / cfdm.read failed: {c.impl_out} {(ex or {}).get('error', '') if isinstance(ex, dict) else ''}"
     if ex.get("n") != 1:
         return f"{ex.get('n')} fields read back"
     for a, _ in GA_POOL:
@@ -1981,18 +2173,585 @@ def oracle_gattr(c):
                     f"group attribute record {p['ga'].get(a, 'absent')!r}), the original has {p['props'].get(a)!r}")
     if not all(ex["eq"]):
         return f"the field read back does not equal the original: equals {ex['eq']}"
-    if ex["rec_groups"] != p["grp"]:
+    if ex["rec_groups"] != gattr_grp(p):
         return f"recorded groups {ex['rec_groups']}"
     if "rewrite_error" in ex:
         return "writing the read field again failed: " + ex["rewrite_error"]
     if ex["again"] != ex["first"]:
         return f"re-writing the read field gives other attributes: {ex['first']} -> {ex['again']}"
-    if p["grp"]:
+    if gattr_grp(p):
         # a group attribute record on a property of the field ends up on the group
         g = str(c.impl_out).split(" ")[1]
         for a, v in p["ga"].items():
             if a in p["props"] and f"{a}>" not in g:
                 return f"group attribute {a} was not written to {enc_path(p['grp'])}"
+    return None
+
+
+# ------------------------------------------------------------------ C11.multi
+# Several fields written by ONE cfdm.write call: group membership, the groups of the dataset, the
+# attributes of every group, and every field's properties after the round trip.
+MULTI_POOL = [("project", ["research", "ops"]), ("foo", ["bar", "baz"]), ("experiment_id", ["run-42", "run-43"]),
+              ("comment", ["made_by_verif", "other_comment"]), ("history", ["h1", "h2"]), ("title", ["t1", "t2"])]
+MULTI_NAMES = [a for a, _ in MULTI_POOL]
+
+
+def gen_multi(rng):
+    n = rng.choice([1, 2, 2, 3, 3, 3, 4])
+    # a small family of group paths: a spine (so that groups are nested), siblings, the root
+    spine = [rng.choice(GP) for _ in range(rng.randint(1, 3))]
+    pool = [spine[:k] for k in range(1, len(spine) + 1)]
+    for _ in range(rng.randint(1, 3)):
+        q = [rng.choice(GP + ["h0", "obs"]) for _ in range(rng.randint(1, 2))]
+        if q not in pool:
+            pool.append(q)
+    names = [a for a, _ in rng.sample(MULTI_POOL, rng.randint(1, 4))]
+    # "agree": the fields of one top-level group family share their property values, every field has every
+    # property and no group attribute has a value of its own that differs from the property - the ordinary use;
+    # "wild": anything (this is where the open several-fields finding lives)
+    agree = rng.random() < 0.72
+    fields = []
+    for i in range(n):
+        r = rng.random()
+        grp = [] if r < 0.12 else (fields[-1]["grp"] if fields and r < 0.3 else rng.choice(pool))
+        props, ga = {}, {}
+        for a in names:
+            vals = dict(MULTI_POOL)[a]
+            if agree:
+                mode = rng.choice(["plain", "none", "none", "same"])
+                v = vals[(GP + ["h0", "obs"]).index(grp[0]) % 2] if grp else vals[0]
+            else:
+                mode = rng.choice(["plain", "plain", "none", "none", "none", "same", "other", "absent", "lacks"])
+                v = vals[0] if rng.random() < 0.7 else vals[1]
+            if mode == "lacks":
+                continue
+            if mode != "absent":
+                props[a] = v
+            if mode == "none":
+                ga[a] = None
+            elif mode == "same":
+                ga[a] = v
+            elif mode in ("other", "absent"):
+                ga[a] = v + "_group"
+        fields.append(dict(grp=list(grp), props=props, ga=ga, dimgrp=rng.randint(0, len(grp)) if rng.random() < 0.3 else 0))
+    return dict(fields=fields)
+
+
+def _multi_field(i, fd):
+    C = cfdm()
+    f = C.Field(properties={"standard_name": "air_temperature", "units": "K", "long_name": f"field {i}"})
+    a = f.set_construct(C.DomainAxis(2 + i))
+    f.set_data(C.Data(np.arange(2.0 + i) + 10 * i), axes=[a])
+    f.nc_set_variable(f"q{i}")
+    f.domain_axes(todict=True)[a].nc_set_dimension(f"d{i}")
+    if fd.get("dimgrp"):
+        f.domain_axes(todict=True)[a].nc_set_dimension_groups(fd["grp"][:fd["dimgrp"]])
+    f.set_properties(fd["props"])
+    f.nc_set_variable_groups(fd["grp"])
+    f.nc_set_group_attributes(dict(fd["ga"]))
+    return f
+
+
+def _enc_kv(d, none="-"):
+    return ",".join(f"{a}>{none if v is None else v}" for a, v in d.items()) or "-"
+
+
+def mk_multi(p):
+    p = dict(p)
+    fs = ";".join(f"{enc_path(fd['grp'])}|q{i}|{_enc_kv(fd['props'])}|{_enc_kv(fd['ga'])}" for i, fd in enumerate(p["fields"]))
+    line = f"C11.multi glob={','.join(DESC_ATTRS)} fields={fs} old=0"
+    groups = [tuple(fd["grp"]) for fd in p["fields"]]
+    nonroot = [g for g in groups if g]
+    distinct = list(dict.fromkeys(nonroot))
+    nested = any(a != b and b[:len(a)] == a for a in distinct for b in distinct)
+    later_ga = any(fd["ga"] and fd["grp"] and distinct.index(tuple(fd["grp"])) >= 1 for fd in p["fields"])
+    tags = [f"multi:fields={len(groups)}", f"multi:distinct-groups={min(len(distinct), 3)}", f"multi:nested={int(nested)}",
+            f"multi:shared-group={int(len(nonroot) != len(distinct))}", f"multi:ga-on-later-group={int(later_ga)}"]
+    return Case("C11.multi", p, line, key=line, nontrivial=len(distinct) >= 1 and any(fd["ga"] for fd in p["fields"]), tags=tags)
+
+
+def _multi_layout(fn):
+    """(groups, {group: attrs in the pool}, {variable path: attrs in the pool}, global attrs in the pool)."""
+    import netCDF4
+    nc = netCDF4.Dataset(fn, "r")
+    try:
+        groups, gattrs, variables = [], {}, {}
+
+        def gp(g):
+            return [] if g.parent is None else [x for x in g.path.split("/") if x]
+
+        def walk(g):
+            here = gp(g)
+            groups.append(enc_path(here))
+            if here:
+                gattrs[enc_path(here)] = {a: str(g.getncattr(a)) for a in g.ncattrs()}
+            for n, v in g.variables.items():
+                if n.startswith("q"):
+                    variables[enc_path(here + [n])] = {a: str(v.getncattr(a)) for a in v.ncattrs() if a in MULTI_NAMES}
+            for c in g.groups.values():
+                walk(c)
+
+        walk(nc)
+        glob = {a: str(nc.getncattr(a)) for a in nc.ncattrs() if a in MULTI_NAMES}
+        return groups, gattrs, variables, glob
+    finally:
+        nc.close()
+
+
+def _fmt_multi(layout):
+    groups, gattrs, variables, glob = layout
+    return (f"groups=[{';'.join(sorted(groups))}] gattrs=[{';'.join(sorted(k + ':' + _fmt_pairs(v) for k, v in gattrs.items()))}] "
+            f"glob={_fmt_pairs(glob)} vars=[{';'.join(sorted(k + ':' + _fmt_pairs(v) for k, v in variables.items()))}]")
+
+
+def impl_multi(c):
+    C = cfdm()
+    p = c.payload
+    fields = [_multi_field(i, fd) for i, fd in enumerate(p["fields"])]
+    grp, flat, grp2 = tmpfile("mg"), tmpfile("mf"), tmpfile("mg2")
+    ex = dict()
+    c.extra = ex
+    try:
+        try:
+            C.write(fields, grp)
+        except Exception as e:
+            ex["error"] = repr(e)[:300]
+            return "raised:" + fw.exc_enum(e)
+        lay = _multi_layout(grp)
+        ex["layout"] = lay
+        out = _fmt_multi(lay)
+        C.write(fields, flat, group=False)
+
+        def by_var(fl):
+            return {f.nc_get_variable().split("/")[-1]: f for f in fl}
+
+        try:
+            G, F = C.read(grp), C.read(flat)
+        except Exception as e:
+            ex["read_error"] = repr(e)[:300]
+            return out
+        ex["n"] = [len(G), len(F)]
+        Gd, Fd = by_var(G), by_var(F)
+        per = {}
+        for i, f in enumerate(fields):
+            k = f"q{i}"
+            g, h = Gd.get(k), Fd.get(k)
+            if g is None or h is None:
+                per[k] = None
+                continue
+            per[k] = dict(
+                props={a: (None if g.get_property(a, None) is None else str(g.get_property(a))) for a in MULTI_NAMES},
+                flat_props={a: (None if h.get_property(a, None) is None else str(h.get_property(a))) for a in MULTI_NAMES},
+                eq=[bool(g.equals(f)), bool(f.equals(g)), bool(g.equals(h)), bool(h.equals(g)), bool(h.equals(f))],
+                groups=list(g.nc_variable_groups()),
+                rec_ga={a: (None if v is None else str(v)) for a, v in g.nc_group_attributes().items()})
+        ex["per"] = per
+        try:
+            again = [Gd[f"q{i}"] for i in range(len(fields)) if f"q{i}" in Gd]
+            C.write(again, grp2)
+            ex["layout2"] = _multi_layout(grp2)
+        except Exception as e:
+            ex["rewrite_error"] = repr(e)[:300]
+        return out
+    finally:
+        _rm(grp, flat, grp2)
+
+
+def _effective(gattrs, grp):
+    """The attributes a variable in group `grp` inherits: sub-groups supersede their parents."""
+    out = {}
+    for k in range(1, len(grp) + 1):
+        out.update(gattrs.get(enc_path(grp[:k]), {}))
+    return out
+
+
+def oracle_multi(c):
+    p, ex = c.payload, c.extra
+    if not isinstance(ex, dict) or str(c.impl_out).startswith("raised"):
+        return f"cfdm.write of {len(p['fields'])} fields failed: {c.impl_out} {(ex or {}).get('error', '') if isinstance(ex, dict) else ''}"
+    groups, gattrs, variables, glob = ex["layout"]
+    # --- the groups of the dataset: the root, and the group of every field with its ancestors
+    want_groups = {"/"}
+    for fd in p["fields"]:
+        for k in range(1, len(fd["grp"]) + 1):
+            want_groups.add(enc_path(fd["grp"][:k]))
+    if set(groups) != want_groups or len(groups) != len(set(groups)):
+        return f"groups in the dataset {sorted(groups)}, the fields live in {sorted(want_groups)}"
+    # --- every data variable is in its group
+    for i, fd in enumerate(p["fields"]):
+        if enc_path(fd["grp"] + [f"q{i}"]) not in variables:
+            return f"data variable q{i} is not in group {enc_path(fd['grp'])}"
+    # --- a group attribute sits in the group of a field that records it
+    for q, attrs in gattrs.items():
+        for a in attrs:
+            if not any(enc_path(fd["grp"]) == q and a in fd["ga"] for fd in p["fields"]):
+                return f"group {q} carries attribute {a!r} that no field of that group records as a group attribute"
+    if "read_error" in ex:
+        return "cfdm.read failed: " + ex["read_error"]
+    if ex["n"][0] != len(p["fields"]) or ex["n"][1] != len(p["fields"]):
+        return f"{ex['n'][0]} fields read from the grouped file, {ex['n'][1]} from the flat file, {len(p['fields'])} written"
+    # --- meaning
+    for i, fd in enumerate(p["fields"]):
+        r = ex["per"].get(f"q{i}")
+        if r is None:
+            return f"field q{i} did not come back"
+        for a in MULTI_NAMES:
+            if r["props"].get(a) != fd["props"].get(a):
+                return (f"q{i} in {enc_path(fd['grp'])}: property {a!r} is {r['props'].get(a)!r} after the grouped round trip, "
+                        f"the original has {fd['props'].get(a)!r} (flat file: {r['flat_props'].get(a)!r})")
+        if not all(r["eq"]):
+            return f"q{i}: equals [grouped=orig, orig=grouped, grouped=flat, flat=grouped, flat=orig] = {r['eq']}"
+        if r["groups"] != fd["grp"]:
+            return f"q{i}: recorded groups {r['groups']}"
+        # recorded group attributes: what the variable inherits
+        eff = _effective(gattrs, fd["grp"])
+        if set(r["rec_ga"]) != set(eff):
+            return f"q{i}: nc_group_attributes() after read {sorted(r['rec_ga'])}, its groups carry {sorted(eff)}"
+    # --- writing what was read again
+    if "rewrite_error" in ex:
+        return "writing the fields read from the grouped file failed: " + ex["rewrite_error"]
+    g2, ga2, v2, glob2 = ex["layout2"]
+    if set(g2) != set(groups) or set(v2) != set(variables):
+        return f"re-writing gives another group membership: groups {sorted(g2)}, variables {sorted(v2)}"
+    for i, fd in enumerate(p["fields"]):
+        if _effective(ga2, fd["grp"]) != _effective(gattrs, fd["grp"]):
+            return (f"re-writing changes the group attributes q{i} inherits: {_effective(gattrs, fd['grp'])} -> "
+                    f"{_effective(ga2, fd['grp'])}")
+    if ga2 != gattrs:
+        return f"re-writing gives other group attributes: {gattrs} -> {ga2}"
+    return None
+
+
+def classify_multi(c):
+    msg = str(c.oracle_fail or "")
+    if msg.startswith("re-writing gives other group attributes"):
+        # the reader records, for every field, the attributes of ALL its enclosing groups in one dictionary;
+        # written again they all go to the field's own group
+        p, ex = c.payload, c.extra
+        gattrs = ex["layout"][1]
+        for fd in p["fields"]:
+            if any(gattrs.get(enc_path(fd["grp"][:k])) for k in range(1, len(fd["grp"]))):
+                return "rewrite-copies-ancestor-group-attribute-into-subgroup"
+        return "unclassified-multi"
+    if c.line is not None and fw.EXE.exists() and ("property" in msg or "equals" in msg or "carries" in msg or "inherits" in msg):
+        # the writer as it stands: the observed dataset is exactly what the model of the unpatched
+        # `_write_group_attributes` / `omit` predicts, and the patched model predicts something else
+        try:
+            old = fw.model_run([c.line[:-len("old=0")] + "old=1"])[0]
+            new = fw.model_run([c.line])[0]
+        except Exception:
+            return "unclassified-multi"
+        if str(c.impl_out) == old and old != new and len(c.payload["fields"]) >= 2:
+            return "write-group-attributes-of-several-fields-change-properties"
+    return "unclassified-multi"
+
+
+# ------------------------------------------------------------------ C11.self (oracle only)
+# "Self-contained groups": hand-made CF files in which the data variables of several groups use the SAME
+# bare name / relative path for their coordinates, bounds, ancillary variables, cell measures, grid
+# mapping and cell-method scalar coordinates, and every group (or an ancestor of it, or a sub-group)
+# has its own variable of that name.  The harness resolves every reference with its own reading of the
+# CF search rules and writes an equivalent FLAT file (netCDF4 only, unique names); cfdm.read of the
+# grouped file must equal cfdm.read of the flat one.
+SELF_ROLES = [("lat", "coordinates"), ("height", "coordinates"), ("flag", "ancillary_variables"),
+              ("area", "cell_measures"), ("crs", "grid_mapping")]
+
+
+def gen_self(rng):
+    paths = [[]]
+    for _ in range(rng.randint(2, 6)):
+        par = rng.choice([q for q in paths if len(q) < 3])
+        nm = rng.choice(["north", "south", "tropics", "deep", "a"])
+        if par + [nm] not in paths:
+            paths.append(par + [nm])
+    paths = _preorder(paths)
+    nonroot = [q for q in paths if q]
+    regions = rng.sample(nonroot, min(len(nonroot), rng.randint(2, 4)))
+    if rng.random() < 0.15:
+        regions.append([])                    # a data variable in the root group as well
+    plan = []
+    for at in regions:
+        roles = {}
+        for role, attr in SELF_ROLES:
+            if rng.random() < (0.85 if role in ("lat", "flag") else 0.55):
+                r = rng.random()
+                up = 0 if r < 0.6 else rng.randint(0, len(at))      # owner: the region's group or an ancestor
+                sub = role in ("area", "flag", "crs") and rng.random() < 0.35
+                style = rng.choice(["bare", "bare", "bare", "rel", "abs"]) if not sub else rng.choice(["rel", "rel", "abs"])
+                roles[role] = dict(up=up, sub=sub, style=style)
+        plan.append(dict(at=at, roles=roles, cm=rng.random() < 0.5, bounds=rng.random() < 0.6))
+    return dict(paths=paths, plan=plan, h5=rng.random() < 0.25)
+
+
+def self_build(p):
+    """-> (groups in the oracle's vocabulary, variables {(path, name): spec}, data variables [(path, spec)])."""
+    paths = [list(q) for q in p["paths"]]
+    for r in p["plan"]:
+        for role, d in r["roles"].items():
+            owner = r["at"][:len(r["at"]) - d["up"]]
+            if d["sub"]:
+                owner = owner + ["grid"]
+            if owner not in paths:
+                paths.append(owner)
+    paths = _preorder(paths)
+    V = collections.OrderedDict()       # (tuple(path), name) -> dict(role, dims, attrs)
+    for r in p["plan"]:
+        for role, d in sorted(r["roles"].items()):
+            owner = r["at"][:len(r["at"]) - d["up"]]
+            if d["sub"]:
+                owner = owner + ["grid"]
+            key = (tuple(owner), role)
+            if key not in V:
+                V[key] = dict(role=role, dims=[] if role in ("crs", "height") else ["x"], bounds=False)
+            if role == "lat" and r["bounds"]:
+                V[key]["bounds"] = True
+    for (owner, role), spec in list(V.items()):
+        if role == "lat" and spec["bounds"]:
+            V[(owner, "lat_bnds")] = dict(role="lat_bnds", dims=["x", "nv"], bounds=False)
+    groups = []
+    for q in paths:
+        vs = [dict(name=n, dims=spec["dims"]) for (o, n), spec in V.items() if list(o) == q]
+        if q in [r["at"] for r in p["plan"]]:
+            vs.append(dict(name="tas", dims=["x"]))
+        if not q:
+            vs.append(dict(name="x", dims=["x"]))
+        groups.append(dict(path=q, dims=["x", "nv"] if not q else [], vars=vs))
+    return groups, V
+
+
+def self_refs(p):
+    """Per region: {attr: [(token, resolved (path, name) or None)]} and the bounds references."""
+    groups, V = self_build(p)
+    root = otree(groups)
+    out = []
+    for r in p["plan"]:
+        at = r["at"]
+        toks = {}
+        coords = []
+        for role, attr in SELF_ROLES:
+            d = r["roles"].get(role)
+            if d is None:
+                continue
+            owner = at[:len(at) - d["up"]] + (["grid"] if d["sub"] else [])
+            tok = None
+            if d["style"] == "bare":
+                tok = role
+            elif d["style"] == "rel":
+                tok = rel_path(at, owner, role)
+            if tok is None or o_resolve(root, at, attr, tok, None) is None:
+                tok = enc_path(owner + [role])
+            el = o_resolve(root, at, attr, tok, None)
+            toks.setdefault(attr, []).append((tok, el))
+            if attr == "coordinates":
+                coords.append(tok)
+        cm = None
+        if r["cm"] and "height" in r["roles"]:
+            # the scalar coordinate named in cell_methods, by the same token as in `coordinates`
+            tok = [t for t, el in toks["coordinates"] if el and el[2] == "height"]
+            if tok:
+                el = o_resolve(root, at, "cell_methods", tok[0], coords)
+                if el is not None and el[0] == "var":
+                    cm = (tok[0], el)
+        out.append(dict(at=at, toks=toks, cm=cm))
+    bnds = {}
+    for (owner, name), spec in V.items():
+        if name == "lat" and spec["bounds"]:
+            bnds[(owner, name)] = ("lat_bnds", o_resolve(root, list(owner), "bounds", "lat_bnds", None))
+    return groups, V, out, bnds
+
+
+def mk_self(p):
+    p = dict(p)
+    groups, V, refs, bnds = self_refs(p)
+    styles = collections.Counter()
+    same = collections.Counter()
+    for r in refs:
+        for attr, lst in r["toks"].items():
+            for tok, el in lst:
+                styles["abs" if tok.startswith("/") else ("rel" if "/" in tok else "bare")] += 1
+                if not tok.startswith("/"):
+                    same[(attr, tok)] += 1
+    # the same non-absolute string used by several referrers with different designated targets
+    clash = 0
+    for (attr, tok), n in same.items():
+        tg = {tuple(el[1]) + (el[2],) for r in refs for t, el in r["toks"].get(attr, []) if t == tok and el}
+        if len(tg) > 1:
+            clash += 1
+    tags = [f"self:regions={len(refs)}", f"self:same-string-different-target={min(clash, 3)}",
+            "self:styles=" + "+".join(sorted(styles)), f"self:cell-methods={int(any(r['cm'] for r in refs))}",
+            f"self:h5netcdf={int(bool(p.get('h5')))}"]
+    return Case("C11.self", p, None, key=json.dumps(p, sort_keys=True), nontrivial=clash > 0, tags=tags)
+
+
+def _self_values(role, owner_idx, n=4):
+    base = np.arange(float(n))
+    if role == "lat":
+        return 100.0 * (owner_idx + 1) + base
+    if role == "flag":
+        return (100 * (owner_idx + 1) + 10 + base).astype("i4")
+    if role == "area":
+        return 1000.0 * (owner_idx + 1) + base
+    if role == "lat_bnds":
+        a = 100.0 * (owner_idx + 1) + base
+        return np.stack([a - 0.5, a + 0.5], axis=-1)
+    raise ValueError(role)
+
+
+def _self_define(h, name, role, owner_idx, tag):
+    if role == "crs":
+        v = h.createVariable(name, "i4", ())
+        v.grid_mapping_name = "latitude_longitude"
+        v.earth_radius = 6371000.0 + owner_idx
+        return v
+    if role == "height":
+        v = h.createVariable(name, "f8", ())
+        v[...] = 2.0 + owner_idx
+        v.standard_name = "height"
+        v.units = "m"
+    elif role == "lat_bnds":
+        v = h.createVariable(name, "f8", ("x", "nv"))
+        v[...] = _self_values(role, owner_idx)
+        return v
+    else:
+        v = h.createVariable(name, "i4" if role == "flag" else "f8", ("x",))
+        v[...] = _self_values(role, owner_idx)
+        if role == "lat":
+            v.standard_name = "latitude"
+            v.units = "degrees_north"
+        elif role == "area":
+            v.standard_name = "cell_area"
+            v.units = "m2"
+        else:
+            v.standard_name = "status_flag"
+    v.long_name = tag
+    return v
+
+
+def impl_self(c):
+    import netCDF4
+    C = cfdm()
+    p = c.payload
+    groups, V, refs, bnds = self_refs(p)
+    owners = sorted({o for o, _ in V})
+    oidx = {o: i for i, o in enumerate(owners)}
+    flatname = {}
+    for k, (o, n) in enumerate(V):
+        flatname[(o, n)] = f"{n}_{k}"
+    grp, flat = tmpfile("sg"), tmpfile("sf")
+    ex = dict()
+    c.extra = ex
+    try:
+        for fn, grouped in ((grp, True), (flat, False)):
+            nc = netCDF4.Dataset(fn, "w", format="NETCDF4")
+            nc.Conventions = "CF-1.11"
+            nc.createDimension("x", 4)
+            nc.createDimension("nv", 2)
+            xv = nc.createVariable("x", "f8", ("x",))
+            xv[:] = [0.0, 90.0, 180.0, 270.0]
+            xv.standard_name = "longitude"
+            xv.units = "degrees_east"
+            handles = {(): nc}
+            if grouped:
+                for g in groups:
+                    q = tuple(g["path"])
+                    if q:
+                        handles[q] = handles[q[:-1]].createGroup(q[-1])
+            for (o, n), spec in V.items():
+                h = handles[o] if grouped else nc
+                v = _self_define(h, n if grouped else flatname[(o, n)], spec["role"], oidx[o], enc_path(list(o) + [n]))
+                if (o, n) in bnds:
+                    tok, el = bnds[(o, n)]
+                    v.bounds = tok if grouped else flatname[(tuple(el[1]), el[2])]
+            for i, r in enumerate(refs):
+                h = handles[tuple(r["at"])] if grouped else nc
+                d = h.createVariable("tas" if grouped else f"tas_{i}", "f8", ("x",))
+                d[:] = np.arange(4.0) + 50 + 100 * i
+                d.standard_name = "air_temperature"
+                d.units = "K"
+                d.long_name = "region " + enc_path(r["at"])
+                for attr, lst in r["toks"].items():
+                    names = [(t if grouped else flatname[(tuple(el[1]), el[2])]) for t, el in lst]
+                    d.setncattr(attr, ("area: " + names[0]) if attr == "cell_measures" else " ".join(names))
+                if r["cm"]:
+                    t, el = r["cm"]
+                    d.cell_methods = (t if grouped else flatname[(tuple(el[1]), el[2])]) + ": point"
+            nc.close()
+        G, F = _read(grp, p), C.read(flat)
+
+        def describe(f):
+            def tags(d):
+                return sorted(str(x.get_property("long_name", "?")) for x in d.values())
+            aux = f.auxiliary_coordinates(todict=True)
+            b = sorted(str(x.get_property("long_name", "?")) + ":" + ("%g" % float(x.bounds.data.array.flat[0]) if x.has_bounds() else "-")
+                       for x in aux.values())
+            sc = sorted("%g" % float(x.data.array.flat[0]) for x in f.dimension_coordinates(todict=True).values()
+                        if x.get_property("standard_name", None) == "height")
+            er = sorted("%g" % x.datum.get_parameter("earth_radius", -1) for x in f.coordinate_references(todict=True).values())
+            cm = sorted(len(m.get_axes(())) for m in f.cell_methods(todict=True).values())
+            return (f"aux={b} anc={tags(f.field_ancillaries(todict=True))} msr={tags(f.cell_measures(todict=True))} "
+                    f"height={sc} radius={er} cm={cm}").replace(" '", "'").replace("', '", "','")
+
+        def by_name(fl):
+            out = collections.OrderedDict()
+            for f in fl:
+                out.setdefault(str(f.get_property("long_name", "(no long_name)")), []).append(f)
+            return out
+
+        Gd, Fd = by_name(G), by_name(F)
+        ex["names"] = [sorted((k, len(v)) for k, v in Gd.items()), sorted((k, len(v)) for k, v in Fd.items())]
+        parts, eqs = [], {}
+        for i, r in enumerate(refs):
+            k = "region " + enc_path(r["at"])
+            g, f = Gd.get(k, [None])[0], Fd.get(k, [None])[0]
+            parts.append(f"{enc_path(r['at'])}: " + (describe(g) if g is not None else "missing"))
+            eqs[k] = None if g is None or f is None else [bool(g.equals(f)), bool(f.equals(g))]
+            ex.setdefault("flat_desc", {})[k] = describe(f) if f is not None else "missing"
+            ex.setdefault("groups", {})[k] = None if g is None else list(g.nc_variable_groups())
+        ex["eq"] = eqs
+        return " | ".join(parts)
+    finally:
+        _rm(grp, flat)
+
+
+def oracle_self(c):
+    p, ex = c.payload, c.extra
+    if not isinstance(ex, dict) or "eq" not in ex:
+        return f"cfdm.read failed on a hand-made file: {c.impl_out} {str(ex)[-300:]}"
+    groups, V, refs, bnds = self_refs(p)
+    owners = sorted({o for o, _ in V})
+    oidx = {o: i for i, o in enumerate(owners)}
+    # --- what the CF search rules designate, in the vocabulary of `describe`
+    got = dict(x.split(": ", 1) for x in str(c.impl_out).split(" | "))
+    for r in refs:
+        def target(attr, name):
+            return [el for t, el in r["toks"].get(attr, []) if el and el[2] == name]
+        aux = []
+        for el in target("coordinates", "lat"):
+            o = (tuple(el[1]), "lat")
+            b = "-"
+            if o in bnds:
+                bel = bnds[o][1]
+                b = "%g" % float(_self_values("lat_bnds", oidx[tuple(bel[1])]).flat[0])
+            aux.append(enc_path(el[1] + ["lat"]) + ":" + b)
+        anc = sorted(enc_path(el[1] + [el[2]]) for el in target("ancillary_variables", "flag"))
+        msr = sorted(enc_path(el[1] + [el[2]]) for el in target("cell_measures", "area"))
+        hs = sorted("%g" % (2.0 + oidx[tuple(el[1])]) for el in target("coordinates", "height"))
+        er = sorted("%g" % (6371000.0 + oidx[tuple(el[1])]) for el in target("grid_mapping", "crs"))
+        cm = [1] if r["cm"] else []
+        want = (f"aux={sorted(aux)} anc={anc} msr={msr} height={hs} radius={er} cm={cm}").replace(" '", "'").replace("', '", "','")
+        k = enc_path(r["at"])
+        if got.get(k) != want:
+            return (f"data variable {enc_path(r['at'] + ['tas'])}: constructs came from {got.get(k)}, the CF search rules designate {want} "
+                    f"(references { {a: [t for t, _ in l] for a, l in r['toks'].items()} })")
+    if ex["names"][0] != ex["names"][1]:
+        return f"fields read from the grouped file {ex['names'][0]}, from the equivalent flat file {ex['names'][1]}"
+    for k, e in ex["eq"].items():
+        if e is None or not all(e):
+            return f"{k}: read(grouped) and read(equivalent flat file) are not equal: equals {e}; flat: {ex['flat_desc'].get(k)}"
+    for r in refs:
+        k = "region " + enc_path(r["at"])
+        if ex["groups"].get(k) != r["at"]:
+            return f"{k}: recorded groups {ex['groups'].get(k)}"
     return None
 
 
@@ -2003,11 +2762,13 @@ def gen(rng, tier, n):
     n_name = int(n * 0.15)
     n_grp = int(n * 0.05)
     n_cv = int(n * 0.1)
-    n_gattr = int(n * 0.08)
-    n_res = max(0, n - n_place - n_read - n_name - n_grp - n_cv - n_gattr)
+    n_gattr = int(n * 0.06)
+    n_multi = int(n * 0.08)
+    n_self = int(n * 0.06)
+    n_res = max(0, n - n_place - n_read - n_name - n_grp - n_cv - n_gattr - n_multi - n_self)
     # interleave so that a deadline cuts every stream alike
     plan = (["res"] * n_res + ["name"] * n_name + ["grp"] * n_grp + ["place"] * n_place + ["read"] * n_read
-            + ["cv"] * n_cv + ["gattr"] * n_gattr)
+            + ["cv"] * n_cv + ["gattr"] * n_gattr + ["multi"] * n_multi + ["self"] * n_self)
     rng.shuffle(plan)
     for s in plan:
         if s == "res":
@@ -2022,18 +2783,22 @@ def gen(rng, tier, n):
             yield mk_cv(gen_cv(rng))
         elif s == "gattr":
             yield mk_gattr(gen_gattr(rng))
+        elif s == "multi":
+            yield mk_multi(gen_multi(rng))
+        elif s == "self":
+            yield mk_self(gen_self(rng))
         else:
             yield mk_read(gen_read(rng))
 
 
 def from_payload(stream, payload):
     return {"C11.res": mk_res, "C11.name": mk_name, "C11.grp": mk_grp, "C11.place": mk_place, "C11.read": mk_read,
-            "C11.cv": mk_cv, "C11.gattr": mk_gattr}[stream](payload)
+            "C11.cv": mk_cv, "C11.gattr": mk_gattr, "C11.multi": mk_multi, "C11.self": mk_self}[stream](payload)
 
 
 def impl(c):
     fn = {"C11.res": impl_res, "C11.name": impl_name, "C11.grp": impl_grp, "C11.place": impl_place, "C11.read": impl_read,
-          "C11.cv": impl_cv, "C11.gattr": impl_gattr}.get(c.stream)
+          "C11.cv": impl_cv, "C11.gattr": impl_gattr, "C11.multi": impl_multi, "C11.self": impl_self}.get(c.stream)
     if fn is None:
         raise fw.HarnessError("unknown stream " + c.stream)
     return fn(c)
@@ -2045,7 +2810,7 @@ def agree(c):
     if c.stream == "C11.grp":
         return agree_grp(c)
     if c.stream == "C11.place":
-        if str(c.impl_out) == "skip":
+        if str(c.impl_out) in ("skip", "flat-file-has-groups"):
             return True
         return canon_place(c.impl_out) == canon_place(c.model_out)
     return c.impl_out == c.model_out
@@ -2053,7 +2818,7 @@ def agree(c):
 
 def oracle(c):
     fn = {"C11.res": oracle_res, "C11.name": oracle_name, "C11.grp": oracle_grp, "C11.place": oracle_place, "C11.read": oracle_read,
-          "C11.cv": oracle_cv, "C11.gattr": oracle_gattr}[c.stream]
+          "C11.cv": oracle_cv, "C11.gattr": oracle_gattr, "C11.multi": oracle_multi, "C11.self": oracle_self}[c.stream]
     return fn(c)
 
 
@@ -2066,6 +2831,12 @@ def classify(c):
         return classify_place(c)
     if c.stream == "C11.cv":
         return classify_cv(c)
+    if c.stream == "C11.multi":
+        return classify_multi(c)
+    if c.stream == "C11.gattr":
+        p = c.payload
+        if p.get("fmt", "NETCDF4") != "NETCDF4" and p["grp"] and str(c.impl_out) == "raised:RuntimeError":
+            return "write-classic-format-keeps-groups"
     if c.stream == "C11.read":
         z = c.payload.get("zdim")
         if z and z["xg"] and z["cv"] != z["xg"] and "dimz=none" in str(c.impl_out):
@@ -2127,13 +2898,47 @@ def _variants(c):
             yield dict(p, asg=a2)
 
 
+def _variants_more(c):
+    p = c.payload
+    if c.stream == "C11.multi":
+        fs = p["fields"]
+        for i in range(len(fs)):
+            if len(fs) > 1:
+                yield dict(p, fields=fs[:i] + fs[i + 1:])
+        for i, fd in enumerate(fs):
+            for a in sorted(set(fd["props"]) | set(fd["ga"])):
+                for key in ("props", "ga"):
+                    if a in fd[key]:
+                        d2 = dict(fd, **{key: {k: v for k, v in fd[key].items() if k != a}})
+                        yield dict(p, fields=fs[:i] + [d2] + fs[i + 1:])
+            if fd.get("dimgrp"):
+                yield dict(p, fields=fs[:i] + [dict(fd, dimgrp=0)] + fs[i + 1:])
+            if fd["grp"]:
+                yield dict(p, fields=fs[:i] + [dict(fd, grp=fd["grp"][:-1], dimgrp=0)] + fs[i + 1:])
+    elif c.stream == "C11.self":
+        plan = p["plan"]
+        for i in range(len(plan)):
+            if len(plan) > 1:
+                yield dict(p, plan=plan[:i] + plan[i + 1:])
+        for i, r in enumerate(plan):
+            for role in sorted(r["roles"]):
+                r2 = dict(r, roles={k: v for k, v in r["roles"].items() if k != role})
+                yield dict(p, plan=plan[:i] + [r2] + plan[i + 1:])
+            if r["cm"]:
+                yield dict(p, plan=plan[:i] + [dict(r, cm=False)] + plan[i + 1:])
+            if r["bounds"]:
+                yield dict(p, plan=plan[:i] + [dict(r, bounds=False)] + plan[i + 1:])
+        if p.get("h5"):
+            yield dict(p, h5=False)
+
+
 def shrink(c, run):
     """Greedy: keep a smaller input while it still fails with the same signature."""
     sig = classify(c)
     best, improved, steps = c, True, 0
     while improved and steps < 150:
         improved = False
-        for q in _variants(best):
+        for q in (_variants_more(best) if best.stream in ("C11.multi", "C11.self") else _variants(best)):
             steps += 1
             d = from_payload(c.stream, q)
             try:
